@@ -22,5 +22,4 @@ INVARIANT InvA
 INVARIANT InvAnn
 INVARIANT Exclusion
 INVARIANT LogHeaderOK
-INVARIANT InvLogNoTorn
 CHECK_DEADLOCK FALSE
